@@ -123,7 +123,8 @@ def handle (op : String) (j : Json) : Option (Except String Json) :=
       let E ← J.listOf (fun e => do let l ← J.natList e; .ok (l.getD 0 0, l.getD 1 0)) (← J.field j "edges")
       match Bksf.twoBody tol E (← nat j "p") (← nat j "q") (← nat j "r") (← nat j "s") with
       | none => .ok Json.null
-      | some a => .ok (J.ofOp a)
+      | some a => .ok (J.obj [("op", J.ofOp a),
+          ("ok4", Json.bool (Bksf.twoBody4Ok tol E (← nat j "p") (← nat j "q") (← nat j "r") (← nat j "s")))])
   | "c05.bksf_b" => some do
       let E ← J.listOf (fun e => do let l ← J.natList e; .ok (l.getD 0 0, l.getD 1 0)) (← J.field j "edges")
       .ok (J.ofOp (Bksf.edgeB tol E (← nat j "i")))
